@@ -51,6 +51,9 @@ const c10CallTimeout = 20 * time.Second
 
 type c10Member struct {
 	start, size int
+	hlen        int // header length
+	xend        int // end of the Extra field (offset in the member)
+	nend        int // end of the Name field incl. NUL (= xend if absent)
 	payload     []byte
 	marker      bool
 }
@@ -65,20 +68,50 @@ func c10ParseStrict(s []byte) ([]c10Member, error) {
 		if len(b) < 28 {
 			return nil, fmt.Errorf("member at %d: %d bytes left", off, len(b))
 		}
-		if b[0] != 0x1f || b[1] != 0x8b || b[2] != 8 || b[3] != 4 {
-			return nil, fmt.Errorf("member at %d: not a gzip member with FEXTRA only", off)
+		// gzip header as bgzf.Writer lays it out: FEXTRA always, the BC subfield first in Extra, optionally
+		// FNAME and FCOMMENT; nothing else
+		if b[0] != 0x1f || b[1] != 0x8b || b[2] != 8 || b[3]&4 == 0 || b[3]&^(4|8|16) != 0 {
+			return nil, fmt.Errorf("member at %d: not a gzip member with FEXTRA and at most FNAME, FCOMMENT", off)
 		}
-		if binary.LittleEndian.Uint16(b[10:]) != 6 || b[12] != 'B' || b[13] != 'C' || binary.LittleEndian.Uint16(b[14:]) != 2 {
-			return nil, fmt.Errorf("member at %d: extra field is not the single BC subfield", off)
+		xlen := int(binary.LittleEndian.Uint16(b[10:]))
+		if xlen < 6 || 12+xlen > len(b) || b[12] != 'B' || b[13] != 'C' || binary.LittleEndian.Uint16(b[14:]) != 2 {
+			return nil, fmt.Errorf("member at %d: extra field does not start with the BC subfield", off)
+		}
+		for q := 18; q < 12+xlen; { // the other subfields must be well-formed and must not be another BC
+			if q+4 > 12+xlen {
+				return nil, fmt.Errorf("member at %d: truncated extra subfield", off)
+			}
+			if b[q] == 'B' && b[q+1] == 'C' {
+				return nil, fmt.Errorf("member at %d: second BC subfield", off)
+			}
+			q += 4 + int(binary.LittleEndian.Uint16(b[q+2:]))
+			if q > 12+xlen {
+				return nil, fmt.Errorf("member at %d: extra subfield overruns XLEN", off)
+			}
+		}
+		xend := 12 + xlen
+		hlen := xend
+		nend := xend
+		for _, bit := range []byte{8, 16} {
+			if b[3]&bit != 0 {
+				z := bytes.IndexByte(b[hlen:], 0)
+				if z < 0 {
+					return nil, fmt.Errorf("member at %d: unterminated name/comment", off)
+				}
+				hlen += z + 1
+			}
+			if bit == 8 {
+				nend = hlen
+			}
 		}
 		size := int(binary.LittleEndian.Uint16(b[16:])) + 1
-		if size < 28 || size > len(b) {
-			return nil, fmt.Errorf("member at %d: BSIZE+1 = %d, %d bytes left", off, size, len(b))
+		if size < hlen+10 || size > len(b) {
+			return nil, fmt.Errorf("member at %d: BSIZE+1 = %d, header %d, %d bytes left", off, size, hlen, len(b))
 		}
 		// the block body: deflate data + trailer, optionally followed (compress/gzip reads multistream)
 		// by further gzip members with a plain ten-byte header, each with its own trailer
 		var payload []byte
-		rest := b[18:size]
+		rest := b[hlen:size]
 		for first := true; ; first = false {
 			if !first {
 				if len(rest) < 10 || rest[0] != 0x1f || rest[1] != 0x8b || rest[2] != 8 || rest[3] != 0 {
@@ -104,7 +137,7 @@ func c10ParseStrict(s []byte) ([]c10Member, error) {
 				break
 			}
 		}
-		ms = append(ms, c10Member{start: off, size: size, payload: payload, marker: string(b[:size]) == c10Magic})
+		ms = append(ms, c10Member{start: off, size: size, hlen: hlen, xend: xend, nend: nend, payload: payload, marker: string(b[:size]) == c10Magic})
 		off += size
 	}
 	return ms, nil
@@ -139,6 +172,12 @@ func c10Role(ms []c10Member, pos int) string {
 			r = "subfield-len"
 		case o < 18:
 			r = "bsize"
+		case o < m.xend:
+			r = "extra-user"
+		case o < m.nend:
+			r = "name"
+		case o < m.hlen:
+			r = "comment"
 		case o < m.size-8:
 			r = "deflate"
 		case o < m.size-4:
@@ -229,6 +268,11 @@ func c10Describe(name, layer string, raw []byte) (*c10Stream, error) {
 
 // c10WriteBgzf: parts are written one per Write; a nil part is a Flush.
 func c10WriteBgzf(level int, parts [][]byte) ([]byte, error) {
+	return c10WriteBgzfHdr(level, parts, nil)
+}
+
+// c10WriteBgzfHdr: as c10WriteBgzf, with the gzip header fields of the Writer set by setHdr.
+func c10WriteBgzfHdr(level int, parts [][]byte, setHdr func(w *bgzf.Writer)) ([]byte, error) {
 	var buf bytes.Buffer
 	var err error
 	o := guardTimeout(c10CallTimeout, func() {
@@ -236,6 +280,9 @@ func c10WriteBgzf(level int, parts [][]byte) ([]byte, error) {
 		w, err = bgzf.NewWriterLevel(&buf, level, 1)
 		if err != nil {
 			return
+		}
+		if setHdr != nil {
+			setHdr(w)
 		}
 		for _, p := range parts {
 			if p == nil {
@@ -1156,6 +1203,15 @@ func c10Streams(c *ctx, scale int, tag string) []*c10Stream {
 	// S3: stored (level 0) blocks: the payload bytes are literally in the stream
 	raw, err = c10WriteBgzf(gzip.NoCompression, [][]byte{rnd.bytes(20 * scale), nil, rnd.bytes(11 * scale)})
 	add("stored", "bgzf", raw, err)
+	// S4: the Writer's gzip header fields set: user Extra subfield after BC, Name, Comment, MTIME, OS
+	raw, err = c10WriteBgzfHdr(gzip.DefaultCompression, [][]byte{c10Text(rnd, 12*scale), nil, c10Text(rnd, 9*scale)}, func(w *bgzf.Writer) {
+		w.Extra = []byte{'X', 'Y', 3, 0, 7, 8, 9}
+		w.Name = "n.gz"
+		w.Comment = "c\u00e9"
+		w.ModTime = time.Unix(1234567, 0)
+		w.OS = 3
+	})
+	add("named-header", "bgzf", raw, err)
 	// B1: BAM as bam.Writer lays it out: header block, record block, marker
 	raw, err = c10WriteBam(rnd, 1, 3, 4*scale)
 	b1 := add("bam-writer", "bam", raw, err)
@@ -1227,7 +1283,7 @@ func c10EdgeStreams(c *ctx) []*c10Stream {
 func checkC10(c *ctx) {
 	r := c.res
 	r.Exhaustive = true
-	r.Rule = "streams: closed BGZF/BAM streams written by bgzf.Writer / bam.Writer (one block; two blocks + empty block; stored blocks; BAM as written; the same BAM data re-blocked so that block boundaries fall inside the header, inside and right after a record length prefix, inside a record and at a record end). " +
+	r.Rule = "streams: closed BGZF/BAM streams written by bgzf.Writer / bam.Writer (one block; two blocks + empty block; stored blocks; a stream whose members carry user Extra, Name and Comment; BAM as written; the same BAM data re-blocked so that block boundaries fall inside the header, inside and right after a record length prefix, inside a record and at a record end); hand-framed streams around the block capacity (one block of 65535/65536/65537/65538 payload bytes, and blocks of two gzip members holding 65536+1, 65537+0, 65535+1 bytes: every truncation, sampled substitutions of the big block's header/trailer bytes, and the intact stream, which must fail or read back completely). " +
 		"Cases: EVERY truncation length 0..len-1 and EVERY (position, value != original) single-byte substitution (thorough: larger streams, all values on header/trailer bytes, 24 sampled values on deflate bytes), each for rd in {1,3}, read with Read chunk sizes 1 (ReadByte), 3, 64, 4096. " +
 		"Every case is non-trivial (the input differs from the intact stream); distinct = distinct (stream, cut | position, value, rd). " +
 		"Oracle (implementation only): output must be a prefix of the original data/records; clean io.EOF only at a member boundary (BAM: that is also a record boundary); HasEOF false on every truncation; substitution: error, or exactly the original output. " +
@@ -1368,7 +1424,7 @@ func c10BigBam(c *ctx) {
 	mut := append([]byte{}, raw...)
 	for _, m := range st.members {
 		for off := 0; off < m.size; off++ {
-			if off >= 18 && off < m.size-8 {
+			if off >= m.hlen && off < m.size-8 {
 				continue
 			}
 			pos := m.start + off
